@@ -1064,6 +1064,9 @@ func c05(c *core.Ctx) {
 		c.Floor("SetCandidate-sites", n, 2)
 	})
 
+	c.Clause("C05.10", "an execution that is abandoned without undo (a refused block, a dropped candidate block, a fork sibling) costs nothing: the account copy handed to it owns everything it writes in place — balance, votes, candidate profile, version records (clause C09.6, evaluated here as well: a deposit state written into a shared profile map survives the refusal)")
+	c.Run("copy-deep", func() { c09CopyDeep(c) })
+
 	c.NotDecidedf("the numeric equalities themselves are NOT decided: that the sum of all balances is unchanged by a block, that Σ fees debited = Σ fees credited as numbers, that DivideSalary's shares add up to at most the term reward, that IsRewardBlock is true once per term")
 	c.NotDecidedf("value flows inside the EVM beyond the Transfer hook (contract.UseGas, gas refunds of SSTORE, precompile pricing), and flows of the gas figure through struct fields, maps or interfaces (C05.3b lists any such escape as undecided instead of guessing)")
 	c.NotDecidedf("that chargeForGas finds an income address (it silently burns the fees otherwise); that a panic in SetBalance is the right reaction to a negative value (it is a crash, see D32's history); big.Int aliasing through values other than GetBalance's result")
